@@ -5,8 +5,9 @@ import sys
 def _reexec_with_fixed_hashseed():
     # The library iterates over sets of id-hashed objects; our oracles are order independent, pinning the hash seed
     # only makes replays bit-identical.
-    if os.environ.get("PYTHONHASHSEED") != "0":
-        env = dict(os.environ, PYTHONHASHSEED="0")
+    want = os.environ.get("TV_HASHSEED", "0")  # TV_HASHSEED exists only to test independence from the hash seed
+    if os.environ.get("PYTHONHASHSEED") != want:
+        env = dict(os.environ, PYTHONHASHSEED=want)
         os.execve(sys.executable, [sys.executable, "-m", "tv", *sys.argv[1:]], env)
 
 
